@@ -360,3 +360,129 @@ def single_preemption_schedules(world, calls, mp_mode=False, max_preempt=1, limi
                     j += 1
                     if limit and j > limit:
                         break
+
+
+# ---- conflict-directed enumeration (schedules up to commutation of independent steps) ---------------
+
+_TREE_OPS = {"mkdir", "rmdir", "rename", "replace", "listdir", "scandir", "remove", "unlink"}
+
+
+def _is_tmp(p):
+    parts = p.split(os.sep)
+    return len(parts) >= 2 and parts[-2] == "tmp" and parts[-1].startswith("tmp")
+
+
+class Footprint:
+    """What one thread has been seen to touch (union over every execution of the program observed so far):
+    lock ids, paths read, paths written, paths of directory-structure operations."""
+
+    def __init__(self):
+        self.locks, self.reads, self.writes, self.trees = set(), set(), set(), set()
+
+    def add(self, entry):
+        if entry[0] != "fs":
+            self.locks.add(entry[1])
+            return
+        kind, paths = entry[1], entry[2]
+        w = kind in fsi.MUTATING
+        for p in paths:
+            if _is_tmp(p):
+                continue                      # private temp names never coincide between threads
+            (self.writes if w else self.reads).add(p)
+            if kind in _TREE_OPS:
+                self.trees.add(p)
+
+    def conflicts(self, entry):
+        """May `entry` (an operation of the OTHER thread) not commute with something this thread does?"""
+        if entry[0] != "fs":
+            return entry[1] in self.locks
+        kind, paths = entry[1], entry[2]
+        w = kind in fsi.MUTATING
+        for p in paths:
+            if _is_tmp(p):
+                continue
+            if p in self.writes or (w and p in self.reads):
+                return True
+            # directory structure: an operation on an ancestor (mkdir / rmdir / rename / listing) against anything below it
+            for q in self.trees:
+                if p != q and p.startswith(q + os.sep) and (w or q in self.writes):
+                    return True
+            if kind in _TREE_OPS:
+                pre = p + os.sep
+                if any(x.startswith(pre) for x in (self.writes if not w else self.writes | self.reads)):
+                    return True
+        return False
+
+
+def _mask(entry):
+    if entry is None:
+        return None
+    if entry[0] != "fs":
+        return (entry[0],)
+    return ("fs", entry[1], tuple("<tmp>" if _is_tmp(p) else p for p in entry[2]))
+
+
+def conflict_directed_schedules(world, calls, max_preempt=3, mp_mode=False, seed_logs=(), firsts=(0, 1), budget=None, **rp):
+    """2-thread program: every schedule with <= max_preempt preemptions in which each preemption lands
+    immediately before an operation that does not commute with something the other thread does (same lock, same
+    path with a write involved, directory-structure operation on an ancestor).  Preempting anywhere else is
+    equivalent, up to commutation of independent steps, to preempting at the next such operation.  The next
+    candidate positions are read off the execution log of the prefix run itself.  Yields (order, preemptions, Execution, info)."""
+    assert len(calls) == 2
+    fp = [Footprint(), Footprint()]
+
+    def learn(log):
+        for e in log:
+            fp[e[0]].add(e[1:])
+    for lg in seed_logs:
+        learn(lg)
+    stats = {"runs": 0, "mispredicted": 0, "pruned": 0}
+
+    def explore(order, prefix, ex, depth):
+        if depth >= max_preempt or (budget is not None and stats["runs"] >= budget):
+            return
+        if depth == 0:
+            pos, running = 0, order[0]
+        else:
+            pre_entries = [t for t in ex.trace if t[0] == "preempt"]
+            if len(pre_entries) < depth:
+                return
+            pos, running = pre_entries[depth - 1][5], pre_entries[depth - 1][3]
+        fresh = not any(e[0] == running for e in ex.log[:pos])
+        seg = []
+        for e in ex.log[pos:]:
+            if e[0] != running:
+                break
+            seg.append(e[1:])
+        other = fp[1 - running]
+        for m, entry in enumerate(seg, 1):
+            n = m - 1 if fresh else m - 2
+            if n < (1 if not fresh or depth > 0 else 1):
+                continue
+            if not other.conflicts(entry):
+                stats["pruned"] += 1
+                continue
+            pre = prefix + [(n, 0)]
+            ex2 = run_program(world, calls, order, pre, mp_mode, **rp)
+            stats["runs"] += 1
+            learn(ex2.log)
+            if ex2.used_preemptions != depth + 1:
+                continue
+            got = [t for t in ex2.trace if t[0] == "preempt"][depth][4]
+            if _mask(got) != _mask(entry):
+                stats["mispredicted"] += 1
+            yield order, pre, ex2, stats
+            yield from explore(order, pre, ex2, depth + 1)
+            if budget is not None and stats["runs"] >= budget:
+                return
+
+    for first in firsts:
+        order = [first, 1 - first]
+        ex0 = run_program(world, calls, order, [], mp_mode, **rp)
+        learn(ex0.log)
+    for first in firsts:
+        order = [first, 1 - first]
+        ex0 = run_program(world, calls, order, [], mp_mode, **rp)
+        stats["runs"] += 1
+        yield order, [], ex0, stats
+        yield from explore(order, [], ex0, 0)
